@@ -144,15 +144,16 @@ class FakeWorker(_wbase.Worker):
 
     async def run(self, job, rerun: bool = False):
         jid = _jid(job)
-        ev = asyncio.Event()
-        CTL.events[jid] = ev
-        CTL.jobs[jid] = job
-        CTL.pending.append(jid)
+        CTL.evlog.append(("L", jid))
         CTL.cur_launch.append(jid)
         CTL.launched_all.append(jid)
-        CTL.maxlive = max(CTL.maxlive, len(CTL.pending))
-        CTL.evlog.append(("L", jid))
-        await ev.wait()
+        if jid not in CTL.events:
+            CTL.events[jid] = asyncio.Event()
+            CTL.jobs[jid] = job
+            CTL.pending.append(jid)
+            CTL.maxlive = max(CTL.maxlive, len(CTL.pending))
+        # a job launched a second time (a defect the spec check reports) shares the first launch's event
+        await CTL.events[jid].wait()
         # like the cf worker: the job is cloudpickled and run from the copy
         job2 = cp.loads(cp.dumps(job))
         try:
@@ -219,8 +220,12 @@ async def _fetch_finished(self, futures):
                 os.unlink(m)
             CTL.events[jid].set()
             fut = byname[CTL.jobs[jid].checksum]
+            spins = 0
             while not fut.done():
                 await asyncio.sleep(0)
+                spins += 1
+                if spins > 100000:
+                    raise RuntimeError("verif harness: released job %r never completed" % (jid,))
             done.append(jid)
         vis = list(step.get("vis") or [])
         seen = []
@@ -345,9 +350,19 @@ def main(argv):
     install()
     cases = json.load(open(argv[1]))
     out = []
+    import signal
+
+    def _alarm(signum, frame):
+        raise TimeoutError("verif harness: case watchdog (60 s)")
+
+    signal.signal(signal.SIGALRM, _alarm)
     for case in cases:
         try:
-            out.append(run_case(case))
+            signal.alarm(90 if case.get("mode") == "cf" else 60)
+            try:
+                out.append(run_case(case))
+            finally:
+                signal.alarm(0)
         except BaseException as e:  # noqa
             out.append(dict(outcome="harness-error", exc=type(e).__name__, msg=str(e)[:500],
                             tb=traceback.format_exc()[-3000:]))
